@@ -248,12 +248,15 @@ def r08_5(prog, out):
             n += 1
             key = "one-request:%s" % prog.short(bid)
             s = sl.of_resolved(bid, t.args[1])
-            cut = sorted({c.split("::")[-1] for c in s.calls} & {"chunks", "chunks_exact", "take", "skip", "split_at", "split_off", "drain", "truncate", "step_by", "windows", "filter", "rev"})
+            cut = sorted({c.split("::")[-1] for c in s.calls} & {"chunks", "chunks_exact", "take", "skip", "split_at", "split_off", "drain", "truncate", "step_by", "windows", "filter", "rev",
+                                                                 "flat_map", "filter_map", "flatten", "take_while", "skip_while", "map_while", "dedup", "dedup_by_key", "retain",
+                                                                 "pop", "swap_remove", "remove", "find_map", "last", "first", "nth"})
             if bi.cfg.in_loop(bb):
                 out.violation(key, bi.loc(bb), "Publish sends its messages to the topic actor in several requests (the call sits in a loop): batches of concurrent "
                               "publishers interleave, so the messages of one Publish are neither contiguous nor numbered contiguously")
             elif cut:
-                out.violation(key, bi.loc(bb), "only part of the request's messages is handed to the topic actor in this call (%s)" % cut)
+                out.violation(key, bi.loc(bb), "the batch handed to the topic actor is built with %s: some of the request's messages can be dropped (or the batch cut), "
+                              "so Publish returns fewer ids than messages and ids no longer line up with the request" % cut)
             elif ("crate::pubsub_proto::PublishRequest", "messages") in s.fields:
                 out.holds(key, bi.loc(bb), "the whole request.messages vector goes to the actor in one request")
             else:
